@@ -278,7 +278,10 @@ def c13(run, replay=None):
     for sp in SPECIAL_SCRIPTS:
         items.append(("special-script", dict(text=sp, argv=[])))
         items.append(("special-script", dict(text=sp, argv=["--", "x"])))
-    for env in [{"VP_BAD": b"\xff\xfe".decode("utf-8", "surrogateescape")}, {"VP_EMPTY": ""}, {"VP_LONG": "x" * 100000}, {"RASH_LOG_LEVEL": "\xff".encode("latin1").decode("utf-8", "surrogateescape")}]:
+    bad = b"\xff\xfe".decode("utf-8", "surrogateescape")
+    # values AND names that are not UTF-8, an empty value, a huge value, a name of one odd character
+    for env in [{"VP_BAD": bad}, {"VP_EMPTY": ""}, {"VP_LONG": "x" * 100000}, {"RASH_LOG_LEVEL": "\xff".encode("latin1").decode("utf-8", "surrogateescape")},
+                {"VP_N" + bad + "ME": "1"}, {bad: bad}, {"VP NAME": "x"}, {"VP.N-1": "x"}, {"\u00e9\u00e8": "x"}, {"1": "x"}]:
         items.append(("environment", dict(text="#!/usr/bin/env rash\n- debug:\n    msg: \"{{ env | length }}\"\n", argv=[], env=env)))
     for argv in [["--", "-"], ["--", "--"], ["--", "=", "-=", "--="], ["--", ""], ["--", "é" * 5000], ["--", "-" * 3000], ["--"] + ["w"] * 300] + [["--"] + a for a in UNICODE_ARGV]:
         items.append(("argv", dict(text="#!/usr/bin/env rash\n#\n# Usage: prog [options] [<x>...]\n#\n# Options:\n#   -f  f\n#   -o, --output=<file>  o\n#   -v  v\n#\n- debug:\n    msg: \"{{ x | default('') }}\"\n", argv=argv)))
